@@ -779,6 +779,15 @@ var specs = []pkgSpec{
 			"rawPointer_farAddress", "rawPointer_farSegment", "rawPointer_otherPointerType", "rawPointer_capabilityIndex",
 			"bitListSize", "streamHeaderSize",
 		}},
+	{dir: "internal/strquote", path: "capnproto.org/go/capnp/v3/internal/strquote", module: "Strquote",
+		targets: []string{"needsEscape"}},
+}
+
+func nsOf(sp pkgSpec) string {
+	if sp.module == "Core" {
+		return "Capnp.Gen"
+	}
+	return "Capnp.Gen." + sp.module
 }
 
 func translatePkg(repo string, sp pkgSpec) (string, []string, error) {
@@ -878,7 +887,7 @@ func translatePkg(repo string, sp pkgSpec) (string, []string, error) {
 		}
 	}
 	var sb strings.Builder
-	sb.WriteString("import Capnp.Prelude.Int\nset_option linter.unusedVariables false\n/-! GENERATED by go2lean from " + sp.path + " — do not edit. -/\nnamespace Capnp.Gen\nopen Capnp.Prelude\n\n")
+	sb.WriteString("import Capnp.Prelude.Int\nset_option linter.unusedVariables false\n/-! GENERATED by go2lean from " + sp.path + " — do not edit. -/\nnamespace " + nsOf(sp) + "\nopen Capnp.Prelude\n\n")
 	var snames []string
 	for s := range t.structs {
 		snames = append(snames, s)
@@ -966,7 +975,7 @@ func translatePkg(repo string, sp pkgSpec) (string, []string, error) {
 			fmt.Fprintf(&sb, "  | %q => some (let r := %s; .ok %s)\n", n, call, fl)
 		}
 	}
-	sb.WriteString("  | _ => none\n\nend Capnp.Gen\n")
+	sb.WriteString("  | _ => none\n\nend " + nsOf(sp) + "\n")
 	if targetsOut != "" {
 		var tb strings.Builder
 		for _, n := range emittedOrder {
